@@ -33,10 +33,10 @@ func genLifecycle(r *Rng, tier string, p *Plan) {
 	p.N["lifecycle"] = 1
 	// General.ConfigReloadInterval (0 switches the periodic reload off)
 	p.N["cfg_reload_us"] = PickOf(r, int64(0), 200_000, 1_000_000, 60_000_000)
-	p.N["stop_after_us"] = PickOf(r, int64(1), 1000, 300_000, 2_500_000)
+	p.N["stop_after_us"] = PickOf(r, int64(1), 1000, 300_000, 2_500_000, 3_200_000, 6_000_000)
 	n := r.Range(0, 4)
 	for i := 0; i < n; i++ {
-		p.Add(Op{K: PickOf(r, "publish", "changed", "report"), At: r.I64n(p.N["stop_after_us"] + 1), N: int64(i)})
+		p.Add(Op{K: PickOf(r, "publish", "changed", "report", "probe"), At: r.I64n(p.N["stop_after_us"] + 1), N: int64(i)})
 	}
 	p.SortOps()
 }
@@ -85,12 +85,20 @@ func runLifecycle(t *testing.T, p *Plan) *Outcome {
 			return
 		}
 		hl.Register("sub", 2*time.Second)
+		hl.Ready("sub", true) // reports once, at start-up; whether it goes on reporting is the plan's choice
 		cw := &configwatcher.ConfigWatcher{Config: cfg, PubSub: ps, Logger: &logger.NullLogger{}}
 		if err := cw.Start(); err != nil {
 			out.Harness = err.Error()
 			return
 		}
 		out.Probe("race_run_component_lifecycle")
+		// what the /alive and /ready handlers of the two routers, the gRPC health
+		// services and the watchdog do, each on its own goroutine
+		probes := func() {
+			go hl.IsAlive()
+			go hl.IsAlive()
+			go hl.IsReady()
+		}
 		var at int64
 		for _, op := range p.Ops {
 			if op.At > at {
@@ -106,11 +114,17 @@ func runLifecycle(t *testing.T, p *Plan) *Outcome {
 				go cfg.changed()
 			case "report":
 				go hl.Ready("sub", true)
+			case "probe":
+				probes()
 			}
 		}
 		if d := p.N["stop_after_us"] - at; d > 0 {
 			time.Sleep(us(d))
 		}
+		// liveness probes keep coming until the end (by now the subsystem may have
+		// been silent for longer than its timeout)
+		probes()
+		time.Sleep(time.Microsecond)
 		// shutdown, in the order the application stops them
 		cw.Stop()
 		hl.Stop()
